@@ -454,3 +454,23 @@ Definition run_job (c : job * list (list Qc) * list (list Qc)) : list Z :=
       multi (S (2 * d)) (fun i jx a b =>
         @rbf_deriv_entry TE d (@vfun TE (X1 i)) (@vfun TE (X2 jx)) (@pick TE l) a b)
   end.
+
+(* ------------------------------------------------------------------ transport encoding *)
+(* Printing a Z numeral costs ~1 ms in Coq 8.16 (the number notation is evaluated by a Gallina
+   binary->decimal conversion), which dominated the run time; primitive 63-bit integers print
+   natively.  [pack] re-encodes a result list: |z| < 2^60 as one word 4|z| + 2 sgn, larger
+   numbers as a header 4 nlimbs + 2 sgn + 1 followed by base-2^60 limbs (least significant
+   first).  The driver decodes it back to the same list of integers. *)
+From Coq Require Uint63.
+Fixpoint limbs60 (fuel : nat) (z : Z) : list Uint63.int :=
+  match fuel with
+  | O => []
+  | S f => if Z.eqb z 0 then []
+           else Uint63.of_Z (Z.land z (Z.ones 60)) :: limbs60 f (Z.shiftr z 60)
+  end.
+Definition pack1 (z : Z) : list Uint63.int :=
+  let a := Z.abs z in
+  let s := if Z.ltb z 0 then 2%Z else 0%Z in
+  if Z.ltb a (Z.shiftl 1 60) then [Uint63.of_Z (a * 4 + s)]
+  else let ls := limbs60 256 a in Uint63.of_Z (Z.of_nat (length ls) * 4 + s + 1) :: ls.
+Definition pack (l : list Z) : list Uint63.int := flat_map pack1 l.
